@@ -1,6 +1,7 @@
 package main
 
 import (
+	"os"
 	"go/token"
 	"strings"
 
@@ -85,6 +86,21 @@ func c03r1(r *R) {
 		// capture is after the first-settings and GOAWAY-discard checks
 		gs := c.guardStrs(cs.St.Block())
 		o.Check(hasGuard(gs, "+metadata.FromContext(p0.baseCtx)#1"), "capture without a record check; guards %v", gs)
+		if os.Getenv("FPCHECK_DEBUG_C03") != "" {
+			println("C03 capture", fc, cs.Field, strings.Join(gs, " ; "))
+		}
+		// and on nothing else: every frame of the type is recorded (the frame-type dispatch, the record lookup, the
+		// end of the copy loop; SETTINGS acks carry nothing, only the first WINDOW_UPDATE counts, HEADERS priority only
+		// when the frame has one)
+		for _, g := range gs {
+			ok := strings.HasPrefix(g[1:], "assert[*http2.") && strings.HasSuffix(g, "Frame](p1)#1") ||
+				g == "+metadata.FromContext(p0.baseCtx)#1" ||
+				(strings.HasSuffix(g, " <= "+rngIdx+")") && (strings.Contains(g, "NumSettings(") || strings.Contains(g, ".Fields)"))) ||
+				(fc == "SettingsFrame" && strings.HasPrefix(g, "-(*http2.SettingsFrame).IsAck(")) ||
+				(fc == "WindowUpdateFrame" && g == "+(0 == metadata.FromContext(p0.baseCtx)#0.HTTP2Frames.WindowUpdateIncrement)") ||
+				(fc == "MetaHeadersFrame" && cs.Field == "Priorities" && strings.HasPrefix(g, "+(*http2.HeadersFrame).HasPriority("))
+			o.Check(ok, "the capture of %s is additionally conditional on %s: frames outside that condition would be missing from the fingerprint", cs.Field, g)
+		}
 	}
 	for k := range procOf {
 		r.Ob("C03.R1", "case-captures:"+k).Check(seenCases[k], "no capture in the %s case of processFrame", k)
